@@ -235,7 +235,7 @@ contract('loader.CompositeHandler.__call__', params={'handlermap': HMAP},
 
 
 # ---- the configuration loader (C01, C05, C06, C12, C13, C19) -----------------------------------------------------
-MODELS['Sink'].ghost_fields = ('events',)
+MODELS['Sink'].ghost_fields = ('events', 'finished')
 MODELS['matcher.BaseMatcher'].bases = ['Sink']           # matchers are what the parser adds values to
 inline('loader.BaseLoader.__init__')
 model('loader.SchemaLoader', fields={}, external=False)
@@ -307,7 +307,7 @@ contract('loader.ConfigLoader.startSection',
 contract('loader.ConfigLoader.endSection',
          params={'parent': 'Ref[matcher.BaseMatcher]', 'type_': 'str', 'name': 'Opt[str]',
                  'matcher': 'Ref[matcher.BaseMatcher]'},
-         modifies=['matcher._values', 'matcher.handlers.items', 'parent._values', 'parent._sectionnames',
+         modifies=['matcher._values', 'matcher.handlers.items', 'matcher.finished', 'parent._values', 'parent._sectionnames',
                    'matcher.optionbag.keypairs'],
          asserts=[At('args[0] == type_ and args[1] == name', call='parent.addSection', carries='C01,C02',
                      label='completed-section-added-to-its-container-under-the-header-type-and-name')],
